@@ -80,6 +80,9 @@ pub fn execute(scn: &Scn, opts: &ExecOpts) -> Outcome {
         crash: None,
         liveness: false,
         enc_fail: vec![],
+        via_config: false,
+        omit_append_key: false,
+        silent: vec![],
         sched_seed: 0,
         policy: kernel::Policy::RoundRobin,
     };
